@@ -374,6 +374,11 @@ func propC02(w *World, r *Report) {
 		r.Unknown("P3", "throttle start failure", "-", err.Error())
 	}
 	checkRingCapacityExact(w, r, "P1")
+	// the preview is what the frame loop buffered: a snapshot request only READS the ring (a copy that rewinds the position
+	// for its own convenience is seen by the frame loop, which picks its slots without the lock)
+	linkObligations(w, r, propC19, "C19", func(o *Obligation) bool {
+		return strings.HasPrefix(o.Construct, "CopyRecent reads under the ring's lock and modifies nothing")
+	}, "P2")
 }
 
 // ---------------------------------------------------------------------------------------
@@ -979,24 +984,40 @@ func checkDiskGate(w *World, r *Report) {
 	nilPaths := 0
 	for _, p := range paths {
 		if e.termOf(p.Ret.Results[0]).String() != "nil" {
+			// a return that is not the constant nil: it must be an error for sure (a call whose result may be nil -
+			// "create the directory and carry on" - lets a start through without the space having been compared)
+			if !provablyNonNilError(e, p.Ret.Block(), p.Ret.Results[0]) && !pathOnNonNilEdge(p, p.Ret.Results[0]) {
+				r.Fail("S5", "CheckCanRecord returns nil only if the disk check reports no error and enough space", w.InstrPos(p.Ret), "a path returns "+p.Term(e, p.Ret.Results[0]).String()+", which may be nil, without the free space having been compared", "")
+			}
 			continue
 		}
 		nilPaths++
 		// the success path must have tested: helper error == nil and helper verdict true
 		var errOK, verdictOK bool
 		for _, g := range p.Conds {
-			t := g.Cond
-			if g.Pos && t.Op == "eq" || !g.Pos && t.Op == "ne" {
+			t, pos := g.Cond, g.Pos
+			for t.Op == "not" && len(t.Args) == 1 {
+				t, pos = t.Args[0], !pos // "case !enough:" not taken is "enough" taken
+			}
+			if pos && t.Op == "eq" || !pos && t.Op == "ne" {
 				for _, a := range t.Args {
 					if a.Op == "extract" && a.Name == "#1" {
 						errOK = true
 					}
 				}
 			}
-			if t.Op == "extract" && t.Name == "#0" && g.Pos {
+			if t.Op == "extract" && t.Name == "#0" && pos {
 				verdictOK = true
 			}
-			if ex, ok := g.If.Cond.(*ssa.Extract); ok {
+			cv := g.If.Cond
+			for {
+				if u, isU := cv.(*ssa.UnOp); isU && u.Op == token.NOT {
+					cv = u.X
+					continue
+				}
+				break
+			}
+			if ex, ok := cv.(*ssa.Extract); ok {
 				if c, ok := ex.Tuple.(*ssa.Call); ok {
 					helper = c
 				}
@@ -1209,6 +1230,11 @@ func propC13(w *World, r *Report) {
 	// "ends the motion recording in progress with a cleanly closed file": the file the bad frame closed keeps a name of
 	// its own - a recording re-triggered within the same second must not be renamed over it
 	linkObligations(w, r, propC10, "C10", func(o *Obligation) bool { return strings.Contains(o.Construct, "sub-second resolution") }, "B2")
+	// ... also when the motion sink is the throttled recorder: what the processor stops is what the throttler has open
+	// (a flag cleared before its own stop call makes every later stop a no-op: the file is never finished)
+	linkObligations(w, r, propC06, "C06", func(o *Obligation) bool {
+		return o.Rule == "C06.X1" && strings.Contains(o.Construct, "recording flag <=> wrapped file open")
+	}, "B2")
 }
 
 // ---------------------------------------------------------------------------------------
@@ -1242,6 +1268,30 @@ func propC17(w *World, r *Report) {
 		r.Fail("V1", "every parsed frame written exactly once to the continuous sink", "-", "a successfully parsed frame is written 0 or 2+ times to the continuous recorder: "+describeCtx(bad), bad.Trace)
 	} else {
 		r.Check(n > 0, "V1", "every parsed frame written exactly once to the continuous sink", "-", fmt.Sprintf("%d exit contexts of Process with parse ok and the continuous sink present", n))
+	}
+	// ... and while a test recording is open it receives every accepted frame, once: a frame call that ends with the
+	// test file open, or that closed it, has written its frame to it ("21 CONSECUTIVE frames", whatever the motion
+	// recording does on that frame)
+	{
+		var badT *Ctx
+		nT := 0
+		for _, cx := range exitCtxs(run, "Process") {
+			if cx.Dec["parse"] != 1 || cx.Present[roleTest] != 1 {
+				continue
+			}
+			if cx.Sinks[roleTest] != 1 && cx.Ghosts["stop:test"] < 1 {
+				continue
+			}
+			nT++
+			if !(cx.Ghosts["wcur:test"] == 1 && cx.Ghosts["wother:test"] == 0) && badT == nil {
+				badT = cx
+			}
+		}
+		if badT != nil {
+			r.Fail("V1", "while a test recording is open every parsed frame is written to it exactly once", "-", "a frame call leaves the test recording open (or closes it) without having written its frame to it: "+describeCtx(badT), badT.Trace)
+		} else {
+			r.Check(nT > 0, "V1", "while a test recording is open every parsed frame is written to it exactly once", "-", fmt.Sprintf("%d exit contexts", nT))
+		}
 	}
 	// V2 for both auxiliary sinks
 	type aux struct {
